@@ -2,7 +2,7 @@
 import json, os, sys, time
 from .frontend import VERIF, AnalysisBroken
 
-EVID_DIR = os.path.join(VERIF, 'evidence')
+EVID_DIR = os.environ.get('HEXSA_EVIDENCE_DIR') or os.path.join(VERIF, 'evidence')
 REPLAY_DIR = os.path.join(EVID_DIR, 'replay')
 KNOWN = os.path.join(VERIF, 'known_findings.json')
 
